@@ -505,6 +505,40 @@ def task_zero_control_weight():
 task_zero_control_weight.contract_fn = "curves.BaseCurve.__truediv__"
 
 
+def task_mixed_classes():
+    """Operands whose control points are of DIFFERENT number classes (float on one side, Fraction on the other; scalar and vector points): A + B, A - B in BOTH
+    operand orders give the pointwise result (an in-place `+=` into the left operand's array type must not decide whether the sum exists: D51)."""
+    from ..report import FAILED, PROVED, ob
+    fn = "curves.BaseCurve.__add__"
+    out = []
+    U = [0.0, 0.0, 0.5, 1.0, 1.0]
+    V = [0.0, 0.0, 1.0, 1.0]
+    kinds = {"float+Fraction": ([1.0, 2.0, -1.0], [F(1, 2), F(1, 3)]), "int+Fraction": ([1, 2, -1], [F(1, 2), F(1, 3)]),
+             "float-vectors+Fraction-vectors": ([np.array([1.0, 0.5]), np.array([2.0, -1.0]), np.array([0.0, 3.0])],
+                                                [np.array([F(1, 2), F(1)], dtype=object), np.array([F(1, 3), F(-2)], dtype=object)])}
+    for kname, (PA, PB) in kinds.items():
+        for oname, op in (("A+B", lambda a, b: a + b), ("B+A", lambda a, b: b + a), ("A-B", lambda a, b: a - b), ("B-A", lambda a, b: b - a)):
+            bad = None
+            try:
+                A, B = curves.Curve(list(U), list(PA)), curves.Curve(list(V), list(PB))
+                R = op(A, B)
+                for u in (0.0, 0.25, 0.5, 0.8, 1.0):
+                    a, b = np.array(A(u), dtype=float), np.array(B(u), dtype=float)
+                    exp = {"A+B": a + b, "B+A": a + b, "A-B": a - b, "B-A": b - a}[oname]
+                    got = np.array(R(u), dtype=float)
+                    if np.shape(got) != np.shape(exp) or np.any(np.abs(got - exp) > 1e-12):
+                        bad = "(%s)(%s) = %s, expected %s" % (oname, u, got, exp)
+                        break
+            except Exception as e:
+                bad = "%s: %s" % (type(e).__name__, str(e)[:100])
+            out.append(ob("%s:mixed-number-classes[%s,%s]" % (fn, kname, oname), fn, FAILED if bad else PROVED, "B", "concrete", 0.0,
+                          bad or "pointwise, in this operand order", dict(kind="c08.classes", points=kname, op=oname) if bad else None))
+    return out + [{"_stats": dict(cases=len(out))}]
+
+
+task_mixed_classes.contract_fn = "curves.BaseCurve.__add__"
+
+
 def tasks(tier, seed):
     from ..pyvc.driver import verify
     from ..contracts import curvesv
@@ -531,11 +565,15 @@ def tasks(tier, seed):
     ts.append((task_mixed_points, ()))
     ts.append((task_int_scalars, ()))
     ts.append((task_zero_control_weight, ()))
+    ts.append((task_mixed_classes, ()))
     return ts
 
 
 def replay(o):
     w = o["witness"]
+    if w.get("kind") == "c08.classes":
+        r = [x for x in task_mixed_classes() if "id" in x and x["id"].endswith("[%s,%s]" % (w["points"], w["op"]))][0]
+        return r["status"] == "failed", "the pointwise sum / difference in this operand order", r["detail"]
     if w.get("kind") == "c08.zeroweight":
         r = [x for x in task_zero_control_weight() if "id" in x and x["id"].endswith("[%s]" % w["case"])][0]
         return r["status"] == "failed", "the pointwise quotient / product / sum", r["detail"]
